@@ -202,6 +202,40 @@ def step (_ : Unit) (op impl : String) : Unit × DrvOut :=
         | o' => fmtOutcome env osenv o'
       ((), { model, spec := specProg split env osenv code impl })
     | _, _, _, _ => ((), { model := "bad-op" })
+  | "pool" :: o :: code :: n :: k :: rest =>
+    -- k restarting hooks of one Pool alive at the same time; every run of hook j sees exactly hook j's values
+    let rec hooksOf : List String → Option (List (Option (List Bytes) × Env))
+      | [] => some []
+      | _t :: sp :: e :: r => do
+        let sp ← parseSplit sp
+        let e ← parseEnv e
+        let tl ← hooksOf r
+        pure ((sp, e) :: tl)
+      | _ => none
+    match parseEnv o, code.toNat?, n.toNat?, k.toNat?, hooksOf rest with
+    | some osenv, some code, some n, some k, some hooks =>
+      if hooks.length != k then ((), { model := "bad-op" }) else
+      let allKeys := (hooks.flatMap fun h => h.2.map (·.1)) ++ osenv.map (·.1)
+      let keys := allKeys.foldl (fun acc x => if acc.contains x then acc else acc ++ [x]) []
+      let fmtRun (env : Env) : Outcome → String
+        | .ran argv rep =>
+          let seen := if keys.isEmpty then "-" else ",".intercalate (keys.map fun key =>
+            Hex.encode key ++ ":" ++ (match childGet env osenv key with | some v => Hex.encode v | none => "unset"))
+          s!"ran argv={fmtWords argv} env={seen} report={fmtReport rep}"
+        | o' => fmtOutcome env osenv o'
+      let want := (List.range k).zip hooks |>.map fun (j, (sp, env)) =>
+        let split' := sp.map (fun ws => ([] : Bytes) :: ws)
+        let runs := runsRestart rc split' true env osenv code n
+        String.singleton (Char.ofNat (65 + j)) ++ "=" ++ " | ".intercalate (runs.map (fmtRun env))
+      let model := " ; ".intercalate want
+      let got := impl.splitOn " ; "
+      let spec :=
+        if got == want then "ok"
+        else
+          let j := ((List.range k).find? fun i => got[i]? != want[i]?).getD 0
+          s!"FAIL a command of hook {String.singleton (Char.ofNat (65 + j))} did not receive exactly the values of its own hook while other hooks of the pool were alive: expected {want.getD j ""} got {got.getD j ""}"
+      ((), { model, spec })
+    | _, _, _, _, _ => ((), { model := "bad-op" })
   | ["rst", _tmpl, sp, e, o, code, n] =>
     match parseSplit sp, parseEnv e, parseEnv o, code.toNat?, n.toNat? with
     | some split, some env, some osenv, some code, some n =>
